@@ -8,7 +8,7 @@ import sys
 
 from ovf import env, workloads
 from ovf.props.common import batches, scale, ASSUME_SIM
-from ovf.workloads import conduct, mon  # noqa: F401
+from ovf.workloads import conduct, corpus, mon  # noqa: F401
 from ovf.sim import explore
 from ovf.sim.provider import h64
 
@@ -244,6 +244,8 @@ def jobs(tier, seed):
                  extra_seeds=scale(tier, 1, 3), name="cross-process")
     js += batches("conduct", scale(tier, 160, 4000), scale(tier, 20, 100), gen="mix", p_loop=0.3, gseed=seed + 1, P=P, scheds=2,
                   lazy=[0, 50], ctl=dict(req=0.06, crash=0.04, max_req=3), name="double-poll")
+    # the repository's own fixture definitions under generated outcomes, schedules and requests
+    js += [dict(fn="corpus", parts=4, part=i, runs=scale(tier, 4, 40), gseed=seed, ctl=dict(req=0.06, crash=0.04, max_req=3), name="corpus") for i in range(4)]
     return js
 
 
